@@ -13,6 +13,7 @@ import (
 	"verif/internal/diffrun"
 	"verif/internal/gen/gosub"
 	"verif/internal/vk"
+	"verif/internal/xcl"
 )
 
 func TestMain(m *testing.M) {
@@ -130,6 +131,10 @@ func evalAll(srcs []string) ([]*vk.Verdict, []info, error) {
 				cls = "funclit-to-lambda-without-target-type"
 			}
 			vs[i] = &vk.Verdict{Class: cls, Detail: o.V.Detail + "\n--- converted source ---\n" + pairs[j].XFiles["bar.xgo"]}
+		}
+		if vs[i] != nil && vs[i].Class == "stdout-differs" && xcl.HasConstRuneString(srcs[i]) {
+			// known root cause shared with C01: gogen folds string(rune(<constant>)) wrongly
+			vs[i] = &vk.Verdict{Class: "const-string-of-rune-folded-wrong", Detail: vs[i].Detail}
 		}
 		if vs[i] != nil && vs[i].Class != "generator-bug" && mainHasVarDecl(srcs[i]) {
 			// one known root cause: the converter unwraps func main, so `var x T = e` statements of
